@@ -124,25 +124,29 @@ Section Sys.
       destruct (f (m_fs s2)) as [f' r]. cbn [fst snd] in Hn. destruct r; exact Hn. }
     destruct (plan_lookup pl k (S (cnt_get k (m_cnt s)))) as [[e|sg]|].
     - rewrite C1. apply He. exact Hs.
-    - destruct sg.
-      + (* SIGINT *)
-        destruct (m_blocked s1) eqn:Eb.
-        * destruct inhalt.
-          -- unfold handled_in_halt, bind, stop.
-             specialize (Hh eq_refl SIGINT s1). rewrite C1 in Hh.
-             assert (Hp : P (core_of s) /\ k_blocked (core_of s) = true) by (split; [exact Hs | exact Eb]).
-             specialize (Hh Hp). destruct (cl s1); exact Hh.
-          -- apply Nat. reflexivity.
-        * rewrite C1. apply Hd; auto.
-      + destruct (m_blocked s1) eqn:Eb.
-        * destruct inhalt.
-          -- unfold handled_in_halt, bind, stop.
-             specialize (Hh eq_refl SIGTERM s1). rewrite C1 in Hh.
-             assert (Hp : P (core_of s) /\ k_blocked (core_of s) = true) by (split; [exact Hs | exact Eb]).
-             specialize (Hh Hp). destruct (cl s1); exact Hh.
-          -- apply Nat. reflexivity.
-        * rewrite C1. apply Hd; auto.
-      + rewrite C1. apply Hk. exact Hs.
+    - assert (Gen : forall sg0,
+                 match (if m_blocked s1
+                        then if inhalt
+                             then match handled_in_halt cl sg0 s1 with
+                                  | Ret _ s2 => Stop (Killed sg0) WSigHandled s2
+                                  | Stop o w s2 => Stop o w s2
+                                  end
+                             else (let '(f', r) := f (m_fs (set_pending s1 sg0)) in
+                                   match r with SHang => Stop Hang WHang (set_pending s1 sg0)
+                                           | _ => Ret r (set_fs (set_pending s1 sg0) f') end)
+                        else Stop (Killed sg0) WSigDefault s1) with
+                 | Ret a s' => Q a (core_of s')
+                 | Stop o w s' => E o w (core_of s')
+                 end).
+      { intro sg0. destruct (m_blocked s1) eqn:Eb.
+        - destruct inhalt.
+          + unfold handled_in_halt, bind, stop.
+            specialize (Hh eq_refl sg0 s1). rewrite C1 in Hh.
+            assert (Hp : P (core_of s) /\ k_blocked (core_of s) = true) by (split; [exact Hs | exact Eb]).
+            specialize (Hh Hp). destruct (cl s1); exact Hh.
+          + apply Nat. reflexivity.
+        - rewrite C1. apply Hd; auto. }
+      destruct sg; try apply Gen. rewrite C1. apply Hk. exact Hs.
     - apply Nat. reflexivity.
   Qed.
 
